@@ -49,25 +49,26 @@ type E1Dir struct {
 }
 
 type E1Case struct {
-	Kind     string       `json:"kind"` // sync | qblock | qnonblock
-	Queue    int          `json:"queue,omitempty"`
-	Buffered bool         `json:"buffered,omitempty"`
-	Split    bool         `json:"split,omitempty"`
-	Pipe     string       `json:"pipe,omitempty"` // "" | probe | codec names (C09)
-	Tasks    []E1Task     `json:"tasks"`
-	Prefix   []E1Dir      `json:"prefix,omitempty"`
-	Schedule []uint8      `json:"schedule,omitempty"`
-	Faults   []mock.Fault `json:"faults,omitempty"`
-	Stall    string       `json:"stall,omitempty"`  // "never": sender tasks are not scheduled before the final sweep
-	Futile   int          `json:"futile,omitempty"` // futile Close polls (real 100 ms sleeps) the schedule may take
-	NoSweep  bool         `json:"nosweep,omitempty"`
-	Probe    bool         `json:"probe,omitempty"`    // C18: force a blocked writer on at the terminal state
-	C05      *C05Spec     `json:"c05,omitempty"`      // lifecycle probe configuration
-	Excluded int          `json:"excluded,omitempty"` // generator: items replaced because they belong to a listed finding
-	HTTP     *C06HTTP     `json:"http,omitempty"`     // C06: the HTTP codec's "Connection: close" path
-	Stress   int          `json:"stress,omitempty"`   // C02: > 0 = rounds of a real-goroutine stress (no scheduler)
-	Swallow  bool         `json:"swallow,omitempty"`  // the pipeline's exception handler logs and does not forward (the tail handler never sees an exception)
-	WrapRead bool         `json:"wrapread,omitempty"` // the decoding handler wraps a transport read error with %w before raising it (as utils.Assert does)
+	Kind           string       `json:"kind"` // sync | qblock | qnonblock
+	Queue          int          `json:"queue,omitempty"`
+	Buffered       bool         `json:"buffered,omitempty"`
+	Split          bool         `json:"split,omitempty"`
+	Pipe           string       `json:"pipe,omitempty"` // "" | probe | codec names (C09)
+	Tasks          []E1Task     `json:"tasks"`
+	Prefix         []E1Dir      `json:"prefix,omitempty"`
+	Schedule       []uint8      `json:"schedule,omitempty"`
+	Faults         []mock.Fault `json:"faults,omitempty"`
+	Stall          string       `json:"stall,omitempty"`  // "never": sender tasks are not scheduled before the final sweep
+	Futile         int          `json:"futile,omitempty"` // futile Close polls (real 100 ms sleeps) the schedule may take
+	NoSweep        bool         `json:"nosweep,omitempty"`
+	Probe          bool         `json:"probe,omitempty"`          // C18: force a blocked writer on at the terminal state
+	C05            *C05Spec     `json:"c05,omitempty"`            // lifecycle probe configuration
+	Excluded       int          `json:"excluded,omitempty"`       // generator: items replaced because they belong to a listed finding
+	HTTP           *C06HTTP     `json:"http,omitempty"`           // C06: the HTTP codec's "Connection: close" path
+	Stress         int          `json:"stress,omitempty"`         // C02: > 0 = rounds of a real-goroutine stress (no scheduler)
+	AnyCloseReturn bool         `json:"anyclosereturn,omitempty"` // C11: "after Close" begins when a user's Close call has returned, even if nothing was closed
+	Swallow        bool         `json:"swallow,omitempty"`        // the pipeline's exception handler logs and does not forward (the tail handler never sees an exception)
+	WrapRead       bool         `json:"wrapread,omitempty"`       // the decoding handler wraps a transport read error with %w before raising it (as utils.Assert does)
 }
 
 type e1Call struct {
@@ -176,6 +177,16 @@ func drawFutile(t *rapid.T, base []int) int {
 
 func (r *e1Run) closeReturned() bool {
 	if len(r.inactive) == 0 {
+		// no inactive event (yet): a user Close call that has returned counts all the same - whatever it did
+		if r.c.AnyCloseReturn {
+			r.mu.Lock()
+			defer r.mu.Unlock()
+			for _, cc := range r.closeCalls {
+				if cc.End != 0 && cc.Who == "task" {
+					return true
+				}
+			}
+		}
 		return false
 	}
 	for _, t := range r.s.Parked() {
